@@ -23,7 +23,7 @@ EXPLANATION = (
 )
 EXPLANATION_ADD = " Additions: (CK-zero) as in C03 for all SCMP encoders; (SIB-demux) the view's and the model's dst_port closures decide identically (same result expression, same branch conditions)."
 EXPLANATION = EXPLANATION + EXPLANATION_ADD
-EXPLANATION_ADD5 = " Round-5 additions: (FANOUT-all) Subscribers::for_each, through which ScmpErrorHandler::handle reaches the receivers, iterates the whole receiver list (no map_while/take_while/take/skip/step_by adaptor), continues with the next receiver when Weak::upgrade fails and calls the callback with the upgraded receiver on the Some edge only; (BUF-scmp) the scratch buffer of the datagram receive loops that dispatch SCMP is vec![0; N] with N a constant >= 1232 independent of the caller's buffer."
+EXPLANATION_ADD5 = " Round-5 additions: (FANOUT-all) Subscribers::for_each, through which ScmpErrorHandler::handle reaches the receivers, iterates the whole receiver list (no map_while/take_while/take/skip/step_by adaptor), continues with the next receiver when Weak::upgrade fails and calls the callback with the upgraded receiver on the Some edge only; (BUF-scmp) the scratch buffer of every socket receive loop (UDP datagram loops that dispatch SCMP to the handlers, SCMP sockets, raw socket: 5 sites) is vec![0; N] with N a constant >= 1232 independent of the caller's buffer."
 EXPLANATION = EXPLANATION + EXPLANATION_ADD5
 RESIDUAL = ["checksum arithmetic beyond the carry folds (C03 residual)", "receiver-side delivery semantics of SCMP errors to application receivers beyond the demultiplexing key (SIB-demux)"]
 ASSUMPTIONS = ["an SCMP packet handed to ScmpScionSocket::send_to_via is application-originated, not a reply"]
@@ -406,7 +406,7 @@ def scratch_rule(F, R):
         if b is None:
             continue
         rcs = [c for c in b.calls if c.callee and re.search(r"UnderlaySocketExt>::recv$", c.callee)]
-        if not rcs or not any("ScmpHandler" in (c.callee or "") for c in b.calls):
+        if not rcs:
             continue
         R.fn(p)
         for c in rcs:
@@ -446,7 +446,7 @@ def scratch_rule(F, R):
             if not ok:
                 R.violation("BUF-scmp", p + "/scratch", "%s receives all packets of the socket (SCMP errors included) into a scratch buffer whose %s: "
                             "a full-size SCMP error is truncated or dropped before it reaches the SCMP handlers" % (short(p), why), c.span.loc)
-    R.floor("BUF-scmp", n, 2, "underlay receive calls in datagram receive loops that dispatch SCMP")
+    R.floor("BUF-scmp", n, 5, "underlay receive calls of the socket types (2 datagram loops that dispatch SCMP to the handlers, 2 SCMP socket loops, 1 raw socket)")
 
 
 def is_error_predicate(F, fn, depth=3):
